@@ -72,21 +72,27 @@ func (m *Sparse) Load(addr model.Addr, w expr.Width) (expr.Expr, bool) {
 	}
 
 	var finalEx expr.Expr
-	if low := ints[0].Low; low == addr {
-		finalEx = ints[0].Val.expr()
-	} else {
-		finalEx = ints[0].Val.cutBegin(expr.Width(addr - low)).expr()
-	}
-
-	for _, o := range ints[1:] {
-		var ex expr.Expr
-		if o.High <= end {
-			ex = o.Val.expr()
-		} else {
-			ex = o.Val.cutEnd(expr.Width(o.High - end)).expr()
+	for i, o := range ints {
+		// Only bytes in range [lo, hi) of the stored interval are loaded.
+		lo, hi := o.Low, o.High
+		val := o.Val
+		if hi > end {
+			val = val.cutEnd(expr.Width(end - lo))
+			hi = end
+		}
+		if lo < addr {
+			val = val.cutBegin(expr.Width(hi - addr))
+			lo = addr
 		}
 
-		ex = expr.NewBinary(expr.Lsh, ex, expr.ConstFromUint((o.Low-addr)*8), w)
+		ex := val.expr()
+		if i == 0 {
+			// The first interval always covers addr, so there is no shift.
+			finalEx = ex
+			continue
+		}
+
+		ex = expr.NewBinary(expr.Lsh, ex, expr.ConstFromUint((lo-addr)*8), w)
 		finalEx = exprtools.BitOr(finalEx, ex, w)
 	}
 
